@@ -190,7 +190,13 @@ def compared_operands(f, b, subst=None, depth=0):
                 continue
             terms = K.arg_terms(c)
             if c.name in _CMP_CALLS and 1 <= len(terms) <= 2:
-                out.append([x for t in terms[:2] for x in texts(t)])
+                parts = [texts(t) for t in terms[:2]]
+                if c.name == "hash":
+                    out.extend([x] + (parts[1] if len(parts) > 1 else []) for x in parts[0])
+                elif len(parts) == 2 and len(parts[0]) == len(parts[1]):
+                    out.extend([x, y] for x, y in zip(*parts))       # tuples compare component by component
+                else:
+                    out.append([x for p_ in parts for x in p_])
             for t in terms:
                 for x in walk(t):
                     if x[0] == "closure":
@@ -337,8 +343,8 @@ def run(ctx):
         if b is None:
             ctx.missing("R-FLOW", short(fn), fn)
             continue
-        vals = sorted(render(t) for _, _, t in success_values(b))
-        want = sorted(["Prefix::new_v4%s(addr↓V4.0, len)" % suffix, "Prefix::new_v6%s(addr↓V6.0, len)" % suffix])
+        vals = sorted(K.alpha(render(t), b) for _, _, t in success_values(b))
+        want = sorted(["Prefix::new_v4%s(%%1↓V4.0, %%2)" % suffix, "Prefix::new_v6%s(%%1↓V6.0, %%2)" % suffix])
         ctx.ob("R-FLOW", "%s:dispatch" % short(fn), vals == want, "%s delegates to the constructor of the address's family" % short(fn),
                where=b.loc, detail=vals)
 
@@ -458,17 +464,19 @@ def run(ctx):
         for ops in compared_operands(f, b):
             if meth == "hash":
                 ops = [a for a in ops if a != "%2"]          # the hasher itself
-            sides = set()
+            sides, whose = set(), []
             for a in ops:
                 m = re.match(r"^(MaxLenPrefix::prefix|MaxLenPrefix::resolved_max_len)\((self|%2)\.prefix\)$", a) \
                     or re.match(r"^()(self|%2)\.asn$", a)
                 if m:
                     got.add(a.replace("%2", "self"))
                     sides.add(a.replace("%2", "self"))
+                    whose.append(m.group(2))
                 else:
                     got.add("?" + a)
-            if len(sides) > 1:
-                got.add("?compares %s" % " with ".join(sorted(sides)))        # a projection is compared with its own counterpart
+            # a comparison step sets a projection of self against the same projection of the other value
+            if len(sides) > 1 or (meth != "hash" and sides and sorted(whose) != sorted(["self", "%2"] * (len(whose) // 2))):
+                got.add("?compares %s" % " with ".join(sorted(ops)))
         projs[meth] = got
     want = {"MaxLenPrefix::prefix(self.prefix)", "MaxLenPrefix::resolved_max_len(self.prefix)", "self.asn"}
     for meth, got in projs.items():
@@ -564,13 +572,21 @@ def check_provider_set_decoder(ctx, f):
         if d[0] == "discr":
             inner_t = strip_deep(d[1])
             r = render(inner_t)
-            if re.match(r"^Ord::cmp\(.*last.*Some\.0, .*Asn::take_opt_from\(cons\).*\)$", r):
+            # previous element (a loop-carried optional local) against the element just read, in either operand order;
+            # local and parameter names do not matter
+            ra = K.alpha(r, b)
+            fwd = re.match(r"^Ord::cmp\(\$↓Some\.0, [^$]*Asn::take_opt_from\((%\d|\^)\)[^$]*\)$", ra)
+            rev = re.match(r"^Ord::cmp\([^$]*Asn::take_opt_from\((%\d|\^)\)[^$,]*, \$↓Some\.0\)$", ra)
+            if fwd or rev:
                 found = True
                 reach = oc.success_reach()
                 # continuing = can reach loop head / success; Less = 255
                 cont = {v: (tb in reach or True) for v, tb in b.switch_edges(bi)}
                 live = [v for v, tb in b.switch_edges(bi) if tb in b.can_reach([c.bb for c in b.calls() if (c.res or "").endswith("Asn::take_opt_from")], oc.fail_blocks)]
-                ok = live == [255]
+                listed = [v for v, _ in b.switch_edges(bi) if v is not None]
+                rest = [x for x in (255, 0, 1) if x not in listed]
+                live = [(rest[0] if v is None and len(rest) == 1 else v) for v in live]     # the arm not spelt out
+                ok = live == ([255] if fwd else [1])         # previous < current
                 detail = {"compare": r, "edges_that_continue": live}
     ctx.ob("R-GRD", "ProviderAsSet::take_from:strictly-ascending", found and ok,
            "the decoder continues past a provider AS only if the previous one is strictly smaller (so the captured "
